@@ -32,6 +32,10 @@ pub struct Case {
     pub commands: Vec<String>,
     /// (command, target) pairs that do NOT define the command
     pub undefined: Vec<(String, String)>,
+    /// one executable exits with this code (command index, target index, code): the rest of the
+    /// run is skipped, but the result document still lists every planned pair exactly once
+    #[serde(default)]
+    pub failing: Option<(u16, u16, i32)>,
 }
 
 pub fn strategy() -> impl Strategy<Value = Case> {
@@ -41,10 +45,11 @@ pub fn strategy() -> impl Strategy<Value = Case> {
         vec((0u8..9, any::<u16>(), any::<u16>()), 1..=5),
         0u8..4,
         vec(any::<u16>(), 1..=3),
-        1usize..=2,
+        1usize..=3,
         vec((any::<u16>(), any::<u16>()), 0..=4),
+        proptest::option::weighted(0.25, (any::<u16>(), any::<u16>(), 1i32..=9)),
     )
-        .prop_map(|(raw, state_k, rc, mode_k, picks, ncmd, undef)| {
+        .prop_map(|(raw, state_k, rc, mode_k, picks, ncmd, undef, failing)| {
             // helper traces are keyed by working directory: keep target paths free of trailing slashes here
             let mut raw = raw;
             raw.trailing_slash = 0;
@@ -88,6 +93,7 @@ pub fn strategy() -> impl Strategy<Value = Case> {
                 mode,
                 commands,
                 undefined,
+                failing,
             }
         })
 }
@@ -145,6 +151,7 @@ pub fn strategy_wide(max_width: usize) -> impl Strategy<Value = Case> {
                 mode,
                 commands,
                 undefined,
+                failing: None,
             }
         })
 }
@@ -157,7 +164,11 @@ pub fn check(case: &Case, w: usize) -> CheckResult {
     for c in &case.commands {
         for t in &cfg.targets {
             if !case.undefined.contains(&(c.clone(), t.path.clone())) {
-                beh.insert((c.clone(), t.path.clone()), Behavior { sleep_ms: 3, ..Default::default() });
+                let exit = match case.failing {
+                    Some((fc, ft, code)) if case.commands[pick(fc, case.commands.len())] == *c && cfg.targets[pick(ft, cfg.targets.len())].path == t.path => code,
+                    _ => 0,
+                };
+                beh.insert((c.clone(), t.path.clone()), Behavior { sleep_ms: 3, exit, ..Default::default() });
             }
         }
     }
@@ -236,7 +247,10 @@ pub fn check(case: &Case, w: usize) -> CheckResult {
         return inconclusive(format!("run produced no JSON: {}", out.brief()));
     };
     let run = bb::parse_run(&doc).map_err(|e| Violation::new("c05.output", e))?;
-    if run.failed || out.code != Some(0) {
+    // with a failing executable only the statements about the result document and "at most
+    // once" are judged (what must not start after a failure is C06's subject)
+    let failed_mode = case.failing.is_some() && run.failed;
+    if !failed_mode && (run.failed || out.code != Some(0)) {
         return inconclusive(format!("run failed although nothing fails: {}", out.brief()));
     }
     let got_cmds: Vec<&String> = run.results.iter().map(|r| &r.0).collect();
@@ -296,14 +310,14 @@ pub fn check(case: &Case, w: usize) -> CheckResult {
             for (t, r) in g {
                 let defined = !case.undefined.contains(&(cmd.clone(), t.clone()));
                 let n = by_key.get(&(cmd.clone(), t.clone())).map(|v| v.len()).unwrap_or(0);
-                if defined && n != 1 {
+                if defined && (n > 1 || (n != 1 && !failed_mode)) {
                     return viol("c05.started.count", format!("({}, {}) defines the command but was started {} times", cmd, t, n));
                 }
                 if !defined && n != 0 {
                     return viol("c05.undefined.started", format!("({}, {}) does not define the command but a process was started", cmd, t));
                 }
                 let want = if defined { "success" } else { "undefined" };
-                if r.status != want {
+                if !failed_mode && r.status != want {
                     return viol("c05.status", format!("({}, {}) reported {:?}, expected {:?}", cmd, t, r.status, want));
                 }
             }
@@ -356,6 +370,7 @@ pub fn check(case: &Case, w: usize) -> CheckResult {
         .class_if(!case.undefined.is_empty(), "some-undefined")
         .class_if(cfg.targets.iter().any(|t| t.commands_path.is_some()), "custom-commands-dir")
         .class_if(linked > 0, "symlinked-command-files")
+        .class_if(failed_mode, "one-executable-fails")
         .class_if(selected.len() > 16, "selection>16")
         .class_if(selected.len() > 32, "selection>32")
         .class_if(selected.len() > 64, "selection>64")
@@ -364,11 +379,11 @@ pub fn check(case: &Case, w: usize) -> CheckResult {
 
 pub fn run(ctx: &mut Ctx) {
     ctx.rule = "acyclic configuration (<=8 targets, nesting/uses/ignores; plus a size-boundary mode with groups of 14-20, 30-36, 62-68 (thorough: up to 130) independent targets) x repository state (no checkpoint / clean / new files in targets, uses paths, siblings, outside) \
-x 1-2 commands with some (command,target) undefined x mode (auto / -t S / -t S --deps). oracle: selection == `analyze` taken immediately before (auto), S (-t), model closure(S) (--deps); \
+x 1-3 commands with some (command,target) undefined, 25% with one failing executable (then only the result document and at-most-once are judged) x mode (auto / -t S / -t S --deps). oracle: selection == `analyze` taken immediately before (auto), S (-t), model closure(S) (--deps); \
 run groups == analyze groups (auto), singletons and non-overlapping helper intervals (-t), valid layering (--deps); every (command,target) once in the result; exactly one start record when \
 defined, none when undefined or unselected. non-trivial = selection is a proper non-empty subset, or the closure is strictly larger than S; distinct by SHA-256"
         .to_string();
-    ctx.assumptions = vec!["all helpers exit 0".into(), "new file names are ASCII (quoting of other names is C02's subject)".into()];
+    ctx.assumptions = vec!["helpers exit 0, except the one failing executable of a quarter of the cases".into(), "new file names are ASCII (quoting of other names is C02's subject)".into()];
     let n = ctx.n(300, 6000);
     ctx.drive("run", strategy, n, check);
     let n2 = ctx.n(30, 500);
